@@ -8,6 +8,8 @@ REPO = os.environ.get('VERIF_REPO', '/tmp/repo_mut'); os.environ['VERIF_REPO'] =
 if not os.path.exists(REPO): subprocess.run(['git', '-C', '/repo', 'worktree', 'add', '--detach', '-f', REPO, 'HEAD'], check=True, stdout=subprocess.DEVNULL)
 subprocess.run(['git', '-C', REPO, 'checkout', '-q', '--', '.']); subprocess.run(['git', '-C', REPO, 'checkout', '-q', '--detach', subprocess.run(['git', '-C', '/repo', 'rev-parse', 'HEAD'], stdout=subprocess.PIPE, text=True).stdout.strip()], check=True)
 os.makedirs(os.environ['VERIF_EVIDENCE_DIR'], exist_ok=True); tier = 'quick'; args = sys.argv[1:]
+noalso = '--no-also' in args
+if noalso: args.remove('--no-also')
 if '--tier' in args: i = args.index('--tier'); tier = args[i + 1]; del args[i:i + 2]
 man = json.load(open(V + '/MANIFEST.json')); claimed = {c['property_id'] for c in man['checks']}
 ALSO = {'C05': ['C08', 'C07', 'C01'], 'C02': ['C04', 'C01'], 'C04': ['C02'], 'C17': ['C01'], 'C03': ['C01', 'C02']}
@@ -23,7 +25,7 @@ for d in sorted(glob.glob(V + '/seeded/C*_*')):
     if r.returncode: out[mid] = dict(error='patch does not apply'); continue
     res = {}
     try:
-        for p in [prop] + ALSO.get(prop, []):
+        for p in [prop] + ([] if noalso else ALSO.get(prop, [])):
             if p not in claimed: continue
             t0 = time.time()
             r = subprocess.run(['./check', p, '--tier', tier], cwd=V, stdout=subprocess.PIPE, stderr=subprocess.DEVNULL, text=True)
